@@ -2,8 +2,9 @@
    independent implementation of the standard security handler.  No part of the model of lopdf's handler
    is used here.
 
-   (enc <doc> <ver> (rnd xB ...) (ivs xB ...))
+   (enc <doc> <ver> (rnd xB ...) (ivs xB ...) [(opts [(eff xNAME)] [direct])])
        encrypt <doc> as ISO 32000 says, with explicit randomness -> (encdoc <doc'>)
+       opts: an EFF entry (crypt filter of embedded file streams); the encryption dictionary as a direct object
    (case <doc> <ver> <isoenc> <implenc> (pws (right|wrong xPW) ...) (flags ...))
        <isoenc>: <doc> encrypted by this specification, <implenc>: <doc> encrypted by lopdf.
        answer (res (dec r ...) (reenc b)):
@@ -170,8 +171,23 @@ Definition reenc (d : doc) (rq : irequest) (impl : doc) : sx :=
     end
   end.
 
-Definition run_enc (d : doc) (rq : irequest) (rnd ivs : list bytes) : sx :=
-  SL [sx_id "encdoc"; doc_to_sx (encrypt_document I rq (d_max_id d + 1, 0) rnd ivs d)].
+(* (opts [(eff xNAME)] [direct]): an EFF entry; the encryption dictionary as a direct object of the trailer *)
+Definition opt_eff (opts : list sx) : option bytes :=
+  fold_left (fun acc o => match o with
+                          | SL [t; n] => if is_id t "eff" then as_bytes n else acc
+                          | _ => acc
+                          end) opts None.
+Definition opt_direct (opts : list sx) : bool := existsb (fun o => is_id o "direct") opts.
+
+Definition with_eff (rq : irequest) (e : option bytes) : irequest :=
+  {| rq_V := rq_V rq; rq_R := rq_R rq; rq_Length := rq_Length rq; rq_EncryptMetadata := rq_EncryptMetadata rq;
+     rq_CF := rq_CF rq; rq_StmF := rq_StmF rq; rq_StrF := rq_StrF rq; rq_EFF := e; rq_owner := rq_owner rq;
+     rq_user := rq_user rq; rq_P := rq_P rq; rq_fek := rq_fek rq |}.
+
+Definition run_enc (d : doc) (rq : irequest) (rnd ivs : list bytes) (opts : list sx) : sx :=
+  let rq := match opt_eff opts with Some e => with_eff rq (Some e) | None => rq end in
+  let eid := if opt_direct opts then None else Some (d_max_id d + 1, 0) in
+  SL [sx_id "encdoc"; doc_to_sx (encrypt_document I rq eid rnd ivs d)].
 
 Definition has_flag (x : sx) (f : String.string) : bool :=
   match x with SL l => existsb (fun y => is_id y f) l | _ => false end.
@@ -185,7 +201,14 @@ Definition run (x : sx) : sx :=
   | SL [t; dx; vx; rx; ix] =>
     if is_id t "enc" then
       match doc_of_sx dx, request_of_sx vx, bytes_list_of_sx rx, bytes_list_of_sx ix with
-      | Some d, Some rq, Some rnd, Some ivs => run_enc d rq rnd ivs
+      | Some d, Some rq, Some rnd, Some ivs => run_enc d rq rnd ivs []
+      | _, _, _, _ => sx_id "badcase"
+      end
+    else sx_id "badcase"
+  | SL [t; dx; vx; rx; ix; SL (_ :: opts)] =>
+    if is_id t "enc" then
+      match doc_of_sx dx, request_of_sx vx, bytes_list_of_sx rx, bytes_list_of_sx ix with
+      | Some d, Some rq, Some rnd, Some ivs => run_enc d rq rnd ivs opts
       | _, _, _, _ => sx_id "badcase"
       end
     else sx_id "badcase"
